@@ -65,6 +65,7 @@ void as_value(eng::Ctx& ctx, const std::string& dir, const ref::TA& V, int n,
 void harness::run_case(const eng::Raw& raw, eng::Ctx& ctx)
 {
 	gen::Limits lim;
+	lim.overload = true;
 	lim.maxStates = ctx.tier() ? 8 : 6;
 	lim.arity3 = true;
 	gen::TACase c = gen::decode_ta(raw, lim, true);
@@ -77,8 +78,13 @@ void harness::run_case(const eng::Raw& raw, eng::Ctx& ctx)
 		const int n = 20 + static_cast<int>(c.header[6] % 131);
 		ref::TA L;
 		L.add(0 /* a */, {}, 0);
+		// DENSE half: every state owns the same leaf and the backbone uses one unary symbol only, so that the downward
+		// simulation is (nearly) a total order - relations with thousands of pairs instead of a few more than n
+		const bool dense = (c.header[6] / 256) % 2;
+		if (dense) ctx.tag("large:dense-relation");
 		for (int i = 1; i < n; ++i) {
 			const uint64_t m = gen::mix(c.header[5], static_cast<uint64_t>(i));
+			if (dense) { L.add(4 /* g */, {i - 1}, i); L.add(0 /* a */, {}, i); if (m % 23 == 0) L.add(1 /* b */, {}, i); continue; }
 			if (m % 3 == 0) L.add(6 /* f */, {i - 1, static_cast<int>((m / 3) % static_cast<uint64_t>(i))}, i);
 			else L.add((m % 3 == 1) ? 4 /* g */ : 5 /* h */, {i - 1}, i);
 			if (m % 11 == 0) L.add(1 /* b */, {}, i);
